@@ -9,7 +9,11 @@
 //!    referenced in every expression position;
 //!  * correspondence: pest's Pratt parser vs the Lean `prattParse` on the real pairs;
 //!  * correspondence: the character-level word model (`Ident.termWord`, `Ident.identifier`)
-//!    vs what the real parser makes of a one-word program / of the word at the start of a text.
+//!    vs what the real parser makes of a one-word program / of the word at the start of a text;
+//!  * correspondence: the character-level model of the `expression` rule for the operator
+//!    fragment (`ExprPeg.exprItems`) vs the real pest pairs, on printer output of random
+//!    operator trees, on the same with random admissible layout and redundant parentheses,
+//!    and on ill-formed texts (`c10.model.expr-peg`).
 
 use crate::fmtcommon::*;
 use crate::progen::{self, GE, GenCfg, BINOPS};
@@ -342,6 +346,9 @@ pub fn run(ctx: &Ctx, rep: &mut Report) {
 
     // ---- 5. the word model vs the real parser ------------------------------------------------
     check_word_model(ctx, &mut model, rep, &mut rng);
+
+    // ---- 6. the `expression` model (operator fragment) vs the real pairs ---------------------
+    check_expr_peg(ctx, &mut model, rep, &mut rng);
     rep.model_requests = model.requests;
 }
 
@@ -531,6 +538,287 @@ fn check_word_model(ctx: &Ctx, model: &mut Model, rep: &mut Report, rng: &mut Rn
             }
             Ok(None) => rep.count("word-munch.text-rejected"),
             Err(p) => rep.finding("oracle", "panic", &text, &p, "c10.panic"),
+        }
+    }
+}
+
+// ------------------------------------------------------------------ expression model tie
+
+/// what the real parser makes of `text` as ONE expression of the operator fragment
+enum RealItems {
+    /// no parse, or not exactly one statement that is one `expression` pair spanning the text
+    None,
+    /// parsed, but with a rule outside the fragment (call, index, field, string, list, …, a
+    /// number that is not a plain digit run): the model does not claim anything
+    Outside(&'static str),
+    /// the item sequence in wire form
+    Items(String),
+}
+
+const FRAGMENT_OPS: &[&str] = &[
+    "add", "subtract", "multiply", "divide", "modulo", "power", "dot_equal", "dot_not_equal", "dot_less_eq", "dot_less",
+    "dot_greater_eq", "dot_greater", "equal", "not_equal", "less_eq", "less", "greater_eq", "greater", "and", "or",
+    "coalesce", "natural_and", "natural_or", "via", "into", "where_", "negation", "invert", "natural_not", "factorial",
+];
+
+fn in_fragment(p: pest::iterators::Pair<Rule>) -> Result<(), &'static str> {
+    let name = format!("{:?}", p.as_rule());
+    match p.as_rule() {
+        Rule::expression => {
+            for c in p.into_inner() {
+                in_fragment(c)?;
+            }
+            Ok(())
+        }
+        Rule::identifier | Rule::bool | Rule::null => Ok(()),
+        Rule::number => {
+            if p.as_str().bytes().all(|b| b.is_ascii_digit()) {
+                Ok(())
+            } else {
+                Err("number-form")
+            }
+        }
+        _ if FRAGMENT_OPS.contains(&name.as_str()) => Ok(()),
+        Rule::call_list => Err("call"),
+        Rule::access => Err("index"),
+        Rule::dot_access => Err("field"),
+        Rule::assignment => Err("assignment"),
+        Rule::lambda => Err("lambda"),
+        _ => Err("other-rule"),
+    }
+}
+
+fn real_expr_items(text: &str) -> Result<RealItems, String> {
+    guarded(|| {
+        let pairs = match get_pairs(text) {
+            Ok(p) => p,
+            Err(_) => return RealItems::None,
+        };
+        let stmts: Vec<_> = pairs.filter(|p| p.as_rule() == Rule::statement).collect();
+        if stmts.len() != 1 {
+            return RealItems::None;
+        }
+        let inner: Vec<_> = stmts[0].clone().into_inner().collect();
+        if inner.len() != 1 || inner[0].as_rule() != Rule::expression || inner[0].as_str() != text {
+            // an `output` declaration, a trailing comment, blanks around the expression, …
+            return if inner.len() == 1 && inner[0].as_rule() == Rule::output_declaration { RealItems::Outside("output") } else { RealItems::None };
+        }
+        if let Err(why) = in_fragment(inner[0].clone()) {
+            return RealItems::Outside(why);
+        }
+        match pitems(inner[0].clone()) {
+            Ok(w) => RealItems::Items(w),
+            Err(_) => RealItems::Outside("conversion-error"),
+        }
+    })
+}
+
+const PEG_ATOMS: &[&str] = &[
+    "x", "y", "z", "w", "a1", "_t", "n", "no", "trueish", "nota", "not_x", "andy", "orb", "intox", "via_", "whereabouts",
+    "iffy", "do_it", "true", "false", "null", "0", "7", "42", "1000", "007", "sqrt", "max", "e", "inf", "F", "_",
+];
+const LAY_ANY: &[&str] = &["", "", " ", " ", "  ", "\t", "\n", "\r\n", " \n  ", "\n\n", "\t \t", " // c\n", "\n// c /\r\n "];
+const LAY_SOME: &[&str] = &[" ", " ", "  ", "\t", "\n", "\r\n", " \n  ", "\n\t", " // c\n", "//c\n "];
+const LAY_WS: &[&str] = &[" ", " ", "  ", "\t", " \t "];
+
+fn gen_ft(rng: &mut Rng, depth: usize) -> T {
+    if depth == 0 || rng.chance(1, 4) {
+        return T::Leaf(PEG_ATOMS[rng.below(PEG_ATOMS.len())]);
+    }
+    match rng.below(10) {
+        0 => T::Neg(Box::new(gen_ft(rng, depth - 1))),
+        1 => T::Not(Box::new(gen_ft(rng, depth - 1))),
+        2 => T::Fact(Box::new(gen_ft(rng, depth - 1))),
+        _ => T::Bin(BINOPS[rng.below(BINOPS.len())], Box::new(gen_ft(rng, depth - 1)), Box::new(gen_ft(rng, depth - 1))),
+    }
+}
+
+/// `minimal` with a random ADMISSIBLE layout string at every position where the grammar admits
+/// one (around binary operators, inside parentheses) and, with probability `extra`/8, an extra
+/// pair of parentheses around a sub-expression.  Admissible: anything (also nothing) around a
+/// symbol operator, but something in front of an operator starting with `!`; at least one
+/// layout atom in front of a word operator and blanks (no line break) behind it.
+fn laid(t: &T, rng: &mut Rng, extra: u64) -> String {
+    fn wrapl(c: &T, need: bool, rng: &mut Rng, extra: u64) -> String {
+        let inner = laid(c, rng, extra);
+        if need || rng.chance(extra, 8) {
+            format!("({}{}{})", LAY_ANY[rng.below(LAY_ANY.len())], inner, LAY_ANY[rng.below(LAY_ANY.len())])
+        } else {
+            inner
+        }
+    }
+    let s = match t {
+        T::Leaf(s) => s.to_string(),
+        T::Bin(op, l, r) => {
+            let (p, right) = doc_level(op);
+            let lneed = matches!(&**l, T::Bin(lo, _, _) if { let (lp, _) = doc_level(lo); lp < p || (lp == p && right) });
+            let rneed = matches!(&**r, T::Bin(ro, _, _) if { let (rp, _) = doc_level(ro); rp < p || (rp == p && !right) });
+            let word = op.chars().next().unwrap().is_ascii_alphabetic();
+            let (a, b) = if word {
+                (LAY_SOME[rng.below(LAY_SOME.len())], LAY_WS[rng.below(LAY_WS.len())])
+            } else if op.starts_with('!') {
+                (LAY_SOME[rng.below(LAY_SOME.len())], LAY_ANY[rng.below(LAY_ANY.len())])
+            } else {
+                (LAY_ANY[rng.below(LAY_ANY.len())], LAY_ANY[rng.below(LAY_ANY.len())])
+            };
+            let ls = wrapl(l, lneed, rng, extra);
+            let rs = wrapl(r, rneed, rng, extra);
+            // `/` directly followed by a comment would read `///…`
+            let b = if *op == "/" && b.starts_with('/') { " " } else { b };
+            format!("{}{}{}{}{}", ls, a, op, b, rs)
+        }
+        T::Neg(x) => format!("-{}", wrapl(x, strength(x) < 7, rng, extra)),
+        T::Not(x) => format!("!{}", wrapl(x, strength(x) < 7, rng, extra)),
+        T::Fact(x) => format!("{}!", wrapl(x, strength(x) < 8, rng, extra)),
+        _ => unreachable!(),
+    };
+    s
+}
+
+fn peg_compare(model: &mut Model, rep: &mut Report, text: &str, class: &str) -> Option<String> {
+    rep.case(&format!("expr-peg {:?}", text), true);
+    let m = model.ask(&format!("expr-items {}", crate::wire::hs(text)));
+    match real_expr_items(text) {
+        Ok(RealItems::Items(real)) => {
+            rep.count(&format!("expr-peg.{}.items", class));
+            if real != m {
+                rep.finding("model", "expr-items", text, &format!("impl={} model={}", real, m), "c10.model.expr-peg");
+            }
+            Some(real)
+        }
+        Ok(RealItems::None) => {
+            rep.count(&format!("expr-peg.{}.none", class));
+            if m != "none" {
+                rep.finding("model", "expr-items", text, &format!("impl=none model={}", m), "c10.model.expr-peg");
+            }
+            None
+        }
+        Ok(RealItems::Outside(why)) => {
+            rep.count(&format!("expr-peg.{}.outside.{}", class, why));
+            None
+        }
+        Err(p) => {
+            rep.finding("oracle", "panic", text, &p, "c10.panic");
+            None
+        }
+    }
+}
+
+fn check_expr_peg(ctx: &Ctx, model: &mut Model, rep: &mut Report, rng: &mut Rng) {
+    // fixed probes: the corners of the layout rules and of the fragment
+    const PROBES: &[&str] = &[
+        "a", "a + b", "a+b", "a!=b", "a !=b", "a != b", "a! !=b", "a!!=b", "a!==b", "a.!=b", "a.==b", "a .== b", "1.==2",
+        "1 .< 2", "a<-b", "a--b", "a - -b", "a- -b", "--a", "- a", "-\na", "!a", "!!a", "! a", "a!", "a!!", "a! !", "a !",
+        "(a)!", "-a!", "(-a)!", "-(a)!", "a and b", "a\nand b", "a\r\nand\tb", "a and\nb", "a and\tb", "a andb", "(a)and b",
+        "(a) and(b)", "(a) and (b)", "a  or  b", "a via b", "a into b", "a where b", "a where\tb", "a wherever", "a or_b",
+        "not a", "not  a", "not\ta", "not\na", "nota", "not(a)", "not (a)", "!not a", "not !a", "not not a", "a not b",
+        "a and not b", "a + not b", "-not a", "not -a", "a /\nb", "a / // c\nb", "a ///c\nb", "a // c", "a // c\n+ b",
+        "a + // c\n b", "a +// c\r\nb", "(// c\n a)", "( a // c\n)", "( a // c)", "a and // c\n b", "a // c\n and b",
+        "a \r b", "a\r+b", "a + b ", " a", "a\n", "()", "( )", "(a", "a)", "((a))", "( ( a ) )", "(a)(b)", "a(b)", "a (b)",
+        "a[0]", "a [0]", "a.b", "a .b", "a. b", "1.5", "1.", ".5", "1e5", "1e", "1_000", "1__0", "0x1f", "0b1", "0b2", "007",
+        "9999999999999999999999", "123456789012345678", "+1", "a + +1", "a +1", "a+-1", "-1", "1-1", "1 -1", "true1",
+        "truex", "nullx", "true", "!true", "null ?? a", "a ?? null", "a??b", "a ? b", "a ?? ?? b", "a &&b", "a & b", "a||b",
+        "a | b", "a<=b", "a< =b", "a<= =b", "a=b", "a = b", "a==b", "a == =b", "a=>b", "(a)=>b", "a >= b", "a => b", "x>=y",
+        "a ^ b ^ c", "a^-b", "a ** b", "a % b", "a%b", "a %% b", "a .> b", "a.>b", "a .>= b", "a.<=b", "if", "if a", "do",
+        "output", "output a", "then", "a then b", "#a", "a + #b", "\"s\" + a", "[a] + b", "{a} + b", "a + [b]", "sqrt", "sqrt(a)",
+        "sqrt + max", "e ^ e", "inf", "infinity + 1", "a +", "+ a", "a + * b", "a b", "a, b", "a;b", "", " ", "\n", "é", "a + é",
+        "a\u{a0}+ b", "a +\u{2028}b", "x\t+\ty", "a via\nb", "a\n\n\nvia b", "a where b where c", "a and b or c", "-a and !b",
+    ];
+    for t in PROBES {
+        peg_compare(model, rep, t, "probe");
+    }
+    // every operator spelling with every combination of (no layout / blank / line break) on its sides
+    for op in BINOPS.iter() {
+        for a in ["", " ", "\n", "\t", "\r\n", " // c\n"] {
+            for b in ["", " ", "\n", "\t", "\r\n", " // c\n"] {
+                peg_compare(model, rep, &format!("x{}{}{}y", a, op, b), "op-layout");
+                peg_compare(model, rep, &format!("(x){}{}{}(y)", a, op, b), "op-layout");
+                peg_compare(model, rep, &format!("x!{}{}{}-y", a, op, b), "op-layout");
+            }
+        }
+    }
+    // random operator trees: printer output, admissible re-layout, redundant parentheses
+    let n = ctx.budget(500, 6000);
+    const ALPHABET: &[char] = &[
+        ' ', ' ', '\t', '\n', 'a', 'n', 'o', 't', 'd', 'r', 'z', '0', '1', '9', '_', '(', ')', '+', '-', '*', '/', '%', '^', '.',
+        '=', '!', '<', '>', '&', '|', '?',
+    ];
+    for _ in 0..n {
+        let d = 1 + rng.below(4);
+        let t = gen_ft(rng, d);
+        let min = minimal(&t);
+        // the printer's text of the parsed tree (the real `expr_to_source`)
+        let printed = match guarded(|| parse_plain(&min)) {
+            Ok(Ok(p)) if p.len() == 1 => match guarded(|| blots_core::ast_to_source::expr_to_source(&p[0])) {
+                Ok(s) => s,
+                Err(pn) => {
+                    rep.finding("oracle", "panic", &min, &pn, "c10.panic");
+                    continue;
+                }
+            },
+            _ => {
+                rep.finding("oracle", "minimal-text-rejected", &min, "fragment tree", "c10.grouping");
+                continue;
+            }
+        };
+        let ref_items = peg_compare(model, rep, &printed, "printed");
+        let ref_ast = parse_plain(&printed).ok();
+        if ref_items.is_none() {
+            rep.finding("oracle", "printed-text-rejected", &printed, &format!("from {:?}", min), "c10.grouping");
+            continue;
+        }
+        for k in 0..3 {
+            // k = 0: layout only; k > 0: layout and extra parentheses
+            let v = laid(&t, rng, if k == 0 { 0 } else { 2 });
+            let got = peg_compare(model, rep, &v, if k == 0 { "relayout" } else { "extra-parens" });
+            // model-free: admissible layout / redundant parentheses do not change the parse
+            match (guarded(|| parse_plain(&v)), &ref_ast) {
+                (Ok(Ok(p)), Some(r)) => {
+                    if !asts_equal(&p, r) {
+                        rep.finding("oracle", "layout-changes-parse", &v, &format!("reference text {:?}", printed), "c10.layout");
+                    }
+                }
+                (Ok(Err(er)), Some(_)) => rep.finding("oracle", "layout-rejected", &v, &format!("reference text {:?} :: {}", printed, er.lines().next().unwrap_or("")), "c10.layout"),
+                (Err(pn), _) => rep.finding("oracle", "panic", &v, &pn, "c10.panic"),
+                _ => {}
+            }
+            if k == 0 {
+                // pure re-layout: the very same items
+                if let (Some(g), Some(r)) = (&got, &ref_items) {
+                    if g != r {
+                        rep.finding("oracle", "layout-changes-items", &v, &format!("reference text {:?}", printed), "c10.layout");
+                    }
+                }
+            }
+            // ill-formed neighbours of the laid-out text
+            let cs: Vec<char> = v.chars().collect();
+            for _ in 0..2 {
+                let mut m = cs.clone();
+                match rng.below(5) {
+                    0 if !m.is_empty() => {
+                        m.remove(rng.below(m.len()));
+                    }
+                    1 => {
+                        let at = rng.below(m.len() + 1);
+                        m.insert(at, *rng.pick(ALPHABET));
+                    }
+                    2 if !m.is_empty() => {
+                        let at = rng.below(m.len());
+                        m[at] = *rng.pick(ALPHABET);
+                    }
+                    3 if !m.is_empty() => {
+                        m.truncate(rng.below(m.len()));
+                    }
+                    _ => {
+                        let at = rng.below(m.len() + 1);
+                        m.insert(at, *rng.pick(ALPHABET));
+                        let at = rng.below(m.len() + 1);
+                        m.insert(at, *rng.pick(ALPHABET));
+                    }
+                }
+                let mt: String = m.into_iter().collect();
+                peg_compare(model, rep, &mt, "mutated");
+            }
         }
     }
 }
